@@ -234,7 +234,7 @@ func c17CheckHostname(c *core.Ctx, h string) {
 }
 
 func init() {
-	sizes := map[core.Tier]int{core.Quick: 30000, core.Thorough: 1500000}
+	sizes := map[core.Tier]int{core.Quick: 30000, core.Thorough: 8000000}
 	core.Register(&core.Prop{
 		ID:    "C17",
 		Level: "exploration",
